@@ -55,6 +55,10 @@ def run_shard_subprocess(pid, shard, tier, seed, timeout):
     extra = {}
     if 'hashseed' in shard:
         extra['PYTHONHASHSEED'] = str(shard['hashseed'])
+    if shard.get('optimize'):
+        # the interpreter runs with assert statements stripped (python -O): a library that validates
+        # with `assert`, or hides a side effect inside one, behaves differently there
+        extra['PYTHONOPTIMIZE'] = '1'
     t0 = time.time()
     status = 'ok'
     err = ''
